@@ -7,7 +7,9 @@ import (
 	"errors"
 	"fmt"
 	"io"
+	"os"
 	"sync"
+	"sync/atomic"
 	"time"
 
 	"github.com/libp2p/go-libp2p/core/host"
@@ -118,6 +120,7 @@ type hlog struct {
 	mu     sync.Mutex
 	events []hEvent
 	hold   chan struct{} // handlers of half-closed streams keep their stream open until the round's audit is over
+	slow   atomic.Bool   // handlers wait 30 ms before greeting (rounds with polling openers)
 }
 
 func (l *hlog) holdCh() chan struct{} {
@@ -184,6 +187,9 @@ func (l *hlog) handler(hid int) network.StreamHandler {
 	return func(s network.Stream) {
 		i := l.enter(hid, string(s.Protocol()), s.Conn().RemotePeer())
 		s.SetDeadline(time.Now().Add(streamDeadline))
+		if l.slow.Load() {
+			time.Sleep(30 * time.Millisecond)
+		}
 		// the handler speaks first (greeting without nonce) so that openers may read before they write
 		if _, err := s.Write(encodeReply(hid, string(s.Protocol()), [nonceLen]byte{})); err != nil {
 			l.read(i, nil, err, string(s.Protocol()))
@@ -243,6 +249,7 @@ type openResult struct {
 	Req           []string `json:"requested"`
 	ReadFirst     bool     `json:"read_before_write,omitempty"`
 	CWFirst       bool     `json:"close_write_before_anything,omitempty"`
+	PollTimeouts  int      `json:"first_reads_that_timed_out_before_the_greeting,omitempty"`
 	GreetHID      int      `json:"greeting_handler_id"`
 	GreetProto    string   `json:"greeting_protocol"`
 	Nonce         string   `json:"nonce"`
@@ -265,7 +272,56 @@ func (o *openResult) ok() bool { return o.Stage == "" }
 // optimistic tells (by observation only, used for path counters) whether NewStream took the lazy path.
 func (o *openResult) optimistic() bool { return o.StreamType == "*basichost.streamWrapper" }
 
-func doOpen(ctx context.Context, opener host.Host, target peer.ID, k int, req []string, readFirst, cwFirst bool, nonce [nonceLen]byte) *openResult {
+// readReplyPolled: the first Read is retried with 5 ms read deadlines until the first byte arrives (a
+// timeout before any byte is an ordinary event for an application that polls), then the rest is read
+// with the long deadline. timeouts = number of reads that ended with a deadline error and no data.
+func readReplyPolled(st network.Stream) (rep reply, n int, timeouts int, err error) {
+	var l [2]byte
+	got := 0
+	for try := 0; got == 0 && try < 200; try++ {
+		st.SetReadDeadline(time.Now().Add(5 * time.Millisecond))
+		k, rerr := st.Read(l[:])
+		got += k
+		if rerr != nil && k == 0 {
+			if errors.Is(rerr, os.ErrDeadlineExceeded) {
+				timeouts++
+				continue
+			}
+			var ne interface{ Timeout() bool }
+			if errors.As(rerr, &ne) && ne.Timeout() {
+				timeouts++
+				continue
+			}
+			return rep, got, timeouts, rerr
+		}
+	}
+	st.SetReadDeadline(time.Now().Add(streamDeadline))
+	if got == 0 {
+		return rep, 0, timeouts, errors.New("no byte after 200 polling reads")
+	}
+	if got < 2 {
+		k, rerr := io.ReadFull(st, l[got:])
+		got += k
+		if rerr != nil {
+			return rep, got, timeouts, rerr
+		}
+	}
+	body := make([]byte, binary.BigEndian.Uint16(l[:]))
+	k, rerr := io.ReadFull(st, body)
+	got += k
+	if rerr != nil {
+		return rep, got, timeouts, rerr
+	}
+	if len(body) < 5 || len(body) != 5+int(body[4])+nonceLen {
+		return rep, got, timeouts, fmt.Errorf("malformed reply % x", body)
+	}
+	rep.HID = int(binary.BigEndian.Uint32(body))
+	rep.Proto = string(body[5 : 5+int(body[4])])
+	copy(rep.Nonce[:], body[5+int(body[4]):])
+	return rep, got, timeouts, nil
+}
+
+func doOpen(ctx context.Context, opener host.Host, target peer.ID, k int, req []string, readFirst, cwFirst, poll bool, nonce [nonceLen]byte) *openResult {
 	res := &openResult{K: k, Req: req, ReadFirst: readFirst && !cwFirst, CWFirst: cwFirst, Nonce: hex.EncodeToString(nonce[:])}
 	st, err := opener.NewStream(ctx, target, protocol.ConvertFromStrings(req)...)
 	if err != nil {
@@ -286,7 +342,14 @@ func doOpen(ctx context.Context, opener host.Host, target peer.ID, k int, req []
 	// conn sends the handshake on its own and waits for the answer)
 	write := func() error { _, err := st.Write(nonce[:]); return err }
 	greet := func() error {
-		rep, n, err := readReply(st)
+		var rep reply
+		var n int
+		var err error
+		if poll && readFirst && !cwFirst {
+			rep, n, res.PollTimeouts, err = readReplyPolled(st)
+		} else {
+			rep, n, err = readReply(st)
+		}
 		res.AppBytesRead += n
 		res.GreetHID, res.GreetProto = rep.HID, rep.Proto
 		if err == nil && rep.Nonce != ([nonceLen]byte{}) {
